@@ -5,3 +5,9 @@ use super::super::*;
 pub(crate) fn fmt_stub(_a: core::fmt::Arguments<'_>) -> String {
     String::new()
 }
+
+/// stands in for std::hash::RandomState::new (thread-local seeds + getrandom): hash seeds are never a subject;
+/// used only where a HashMap is constructed but not exercised
+pub(crate) fn rs_new() -> std::hash::RandomState {
+    unsafe { core::mem::transmute((0u64, 0u64)) }
+}
